@@ -77,7 +77,7 @@ def shaped(val, shape, partial=True):
         if base_type(shape) != "tuple":
             return False
         for k, sv in shape.items():
-            if k not in val or not shaped(val[k], sv, False):
+            if k not in val or not shaped(val[k], sv, partial):      # partial matching reaches nested tuples (doc comment)
                 return False
         for k, vv in val.items():
             if k in shape:
@@ -175,6 +175,16 @@ def cases(rng, n):
         digits = "".join(rng.choice("0123456789") for _ in range(rng.randint(1, 6)))
         tailtxt = rng.choice(["", "abc", " 1", "x9"])
         out.append(("strings.parse_int", "strings.wrap(%s).parse_int().unwrap()" % lit(digits + tailtxt), int(digits)))
+        nodigits = rng.choice(["", "abc", "-5", " 12", "x9", "é1"])
+        out.append(("strings.parse_int", "strings.wrap(%s).parse_int().unwrap()" % lit(nodigits), None))
+        # partial matching at depth: the value has extra fields inside a nested tuple
+        inner = rand_tuple(rng, 3)
+        extra = dict(inner)
+        extra["zz_extra"] = rand_scalar(rng, False)
+        out.append(("schema.shaped", "schema.shaped{val=%s, shape=%s, partial=true}" % (lit({"n": extra, "k": 1}), lit({"n": inner})),
+                    shaped({"n": extra, "k": 1}, {"n": inner}, True)))
+        out.append(("schema.shaped", "schema.shaped{val=%s, shape=%s, partial=false}" % (lit({"n": extra}), lit({"n": inner})),
+                    shaped({"n": extra}, {"n": inner}, False)))
         v = rand_scalar(rng)
         out.append(("functional.maybe.unwrap", "f.maybe{val=%s}.unwrap()" % lit(v), v))
         out.append(("functional.maybe.is_null", "f.maybe{val=%s}.is_null()" % lit(v), v is None))
